@@ -49,7 +49,7 @@ Variable rk : N -> Z.
 Hypothesis HS : C05_float_proofs.contract_S pf fmtF fmtE.
 
 Notation repr := (C04.repr is_print fmtF fmtE rk).
-Notation norm := (C04.norm pf rk).
+Notation norm := (C04.norm is_print pf fmtF fmtE rk).
 Notation read_val := (C04.read_val is_print pf).
 Notation read_items := (C04.read_items is_print pf).
 Notation term_ok := (C03_proofs.term_ok is_print).
@@ -311,9 +311,9 @@ Proof.
   cbn [skip_while is_inline_ws N.eqb Pos.eqb orb]. rewrite P. apply finish_ok. exact Ht.
 Qed.
 
-Lemma value_of_nnorm v n : num_of v = Some n -> value_of_num (nnorm n) = norm v.
+Lemma value_of_nnorm v n : num_of v = Some n -> forall ind, value_of_num (nnorm n) = norm v ind.
 Proof.
-  destruct v; cbn [num_of]; intros E; inversion E; subst; cbn [nnorm value_of_num C04.norm]; try reflexivity.
+  destruct v; cbn [num_of]; intros E ind; inversion E; subst; cbn [nnorm value_of_num C04.norm]; try reflexivity.
   - destruct q as [qn qd]. cbn [Qnum Qden]. reflexivity.
   - destruct (C05.is_nan bits); [destruct (pf C05.sNaN)|]; reflexivity.
 Qed.
@@ -344,7 +344,7 @@ Definition SV (v : value) : Prop :=
   forall ind ctx t, term_ok ctx t -> exists r, peek (repr v ind ++ t) = Some r /\ sp r ctx = true.
 Definition RT (v : value) : Prop :=
   forall ind ctx t fuel, (rdepth v <= fuel)%nat -> term_ok ctx t ->
-    read_val fuel ctx (repr v ind ++ t) = ROk (norm v) t.
+    read_val fuel ctx (repr v ind ++ t) = ROk (norm v ind) t.
 
 Lemma sp_open ctx c : c = 91 \/ c = 40 \/ c = 36 -> sp c ctx = true.
 Proof.
@@ -411,7 +411,7 @@ Qed.
 Lemma elem_step e ind M : RT e -> SV e -> (rdepth e <= M)%nat ->
   forall f' T' items rest, Terminated T' -> (M <= f')%nat ->
   read_items f' (skip_ws T') = IOk items rest ->
-  read_items (S f') (repr e ind ++ T') = IOk (IElem (norm e) :: items) rest.
+  read_items (S f') (repr e ind ++ T') = IOk (IElem (norm e ind) :: items) rest.
 Proof.
   intros Hrt Hsv Hd f' T' items rest HT Hf Hrest.
   pose proof (term_ok_terminated CNormal T' HT) as Tk.
@@ -435,7 +435,7 @@ Lemma pair_step e ind M : RT (fst e) -> SV (fst e) -> RT (snd e) -> SV (snd e) -
   (rdepth (fst e) <= M)%nat -> (rdepth (snd e) <= M)%nat ->
   forall f' T' items rest, Terminated T' -> (M <= f')%nat ->
   read_items f' (skip_ws T') = IOk items rest ->
-  read_items (S f') (pair_text ind e ++ T') = IOk (IPair (norm (fst e)) (norm (snd e)) :: items) rest.
+  read_items (S f') (pair_text ind e ++ T') = IOk (IPair (norm (fst e) (ind + 1)) (norm (snd e) (ind + 2)) :: items) rest.
 Proof.
   intros Hrk Hsk Hrv Hsv Hdk Hdv f' T' items rest HT Hf Hrest.
   destruct e as [k v]. cbn [fst snd] in *. unfold pair_text, mb_pair. cbn [fst snd].
@@ -513,13 +513,13 @@ Proof.
     + change (sFalse ++ t) with (36 :: nFalse ++ t).
       rewrite read_dollar; try assumption; [reflexivity|discriminate|repeat constructor; lia|repeat constructor].
   - intros ind ctx t fuel Hf Ht. destruct fuel as [|f]; [cbn in Hf; lia|]. cbn [C04.repr].
-    rewrite read_num by assumption. rewrite (value_of_nnorm (VInt z) _ eq_refl). reflexivity.
+    rewrite read_num by assumption. rewrite (value_of_nnorm (VInt z) _ eq_refl ind). reflexivity.
   - intros ind ctx t fuel Hf Ht. destruct fuel as [|f]; [cbn in Hf; lia|]. cbn [C04.repr].
-    rewrite read_num by assumption. rewrite (value_of_nnorm (VBig z) _ eq_refl). reflexivity.
+    rewrite read_num by assumption. rewrite (value_of_nnorm (VBig z) _ eq_refl ind). reflexivity.
   - intros ind ctx t fuel Hf Ht. destruct fuel as [|f]; [cbn in Hf; lia|]. cbn [C04.repr].
-    rewrite read_num by assumption. rewrite (value_of_nnorm (VRat q) _ eq_refl). reflexivity.
+    rewrite read_num by assumption. rewrite (value_of_nnorm (VRat q) _ eq_refl ind). reflexivity.
   - intros ind ctx t fuel Hf Ht. destruct fuel as [|f]; [cbn in Hf; lia|]. cbn [C04.repr].
-    rewrite read_num by assumption. rewrite (value_of_nnorm (VFloat b) _ eq_refl). reflexivity.
+    rewrite read_num by assumption. rewrite (value_of_nnorm (VFloat b) _ eq_refl ind). reflexivity.
   - (* string *)
     intros ind ctx t fuel Hf Ht. destruct fuel as [|f]; [cbn in Hf; lia|].
     cbn [C04.repr C04.norm]. cbn [okv] in Hok.
@@ -553,10 +553,10 @@ Proof.
       { cbn [map tail_text]. apply elem_head; [apply IHe; left; reflexivity|].
         apply tail_after; [apply sep_next_ws|unfold sep_next; destruct (0 <=? ind)%Z; discriminate|apply sep_close_ws]. }
       rewrite Hd.
-      rewrite (items_gen (fun e => repr e (ind + 1)) (fun e => IElem (norm e))
+      rewrite (items_gen (fun e => repr e (ind + 1)) (fun e => IElem (norm e (ind + 1)))
                  (list_max (map rdepth (e1 :: l'))) (sep_next ind) (sep_close ind) t
                  (sep_next_ws ind) ltac:(unfold sep_next; destruct (0 <=? ind)%Z; discriminate) (sep_close_ws ind) (e1 :: l')).
-      * cbn [ws_other N.eqb Pos.eqb orb]. rewrite <- map_map with (f := norm) (g := IElem).
+      * cbn [ws_other N.eqb Pos.eqb orb]. rewrite <- (map_map (fun e => norm e (ind + 1)) IElem).
         rewrite build_elems. apply finish_ok. exact Ht.
       * intros a Ha T' HT. apply elem_head; [apply IHe; exact Ha|exact HT].
       * intros a Ha. apply elem_step; [apply IHe; exact Ha|apply IHe; exact Ha|].
@@ -568,20 +568,20 @@ Proof.
       apply andb_true_iff in Hok as [Hk Hv]. pose proof (vsize_map_in m e He) as [S1 S2].
       repeat split; try (apply sv_all; assumption); apply IHn; try assumption; lia. }
     intros ind ctx t fuel Hf Ht. cbn [C04.repr C04.norm].
-    set (dec := fun e : value * value => (fst e, (repr (fst e) (ind + 1), repr (snd e) (ind + 2)))).
-    set (dec' := fun e : value * value => (fst e, (norm (fst e), norm (snd e)))).
-    rewrite (isort_map (@key_lt rk value) (@key_lt rk (bytes * bytes)) dec (fun a b => eq_refl) m).
-    rewrite (isort_map (@key_lt rk value) (@key_lt rk (value * value)) dec' (fun a b => eq_refl) m).
-    set (sm := isort (@key_lt rk value) m).
-    assert (Hin : forall e, In e sm -> In e m) by (intros e; apply isort_in).
-    assert (Hlen : length sm = length m) by apply isort_length.
+    pose proof (isort_dec rk (fun k : value => repr k (ind + 1))
+                  (fun e : value * value => repr (snd e) (ind + 2)) m) as E1.
+    pose proof (isort_dec rk (fun k : value => repr k (ind + 1))
+                  (fun e : value * value => (norm (fst e) (ind + 1), norm (snd e) (ind + 2))) m) as E2.
+    cbn beta in E1, E2. rewrite E1, E2. clear E1 E2.
+    set (ktext := fun k : value => repr k (ind + 1)).
+    set (sm := sorted_entries rk ktext m).
+    assert (Hin : forall e, In e sm -> In e m) by (intros e; apply sorted_entries_in).
+    assert (Hlen : length sm = length m) by apply sorted_entries_length.
     rewrite (fold_left_map (fun b y => lb_write ind b y)
-               (fun e : value * (bytes * bytes) => mb_pair (fst (snd e)) (ind + 2) (snd (snd e))) (map dec sm)).
+               (fun e : value * (bytes * bytes) => mb_pair (fst (snd e)) (ind + 2) (snd (snd e)))).
     rewrite !map_map. cbn [fst snd].
-    change (map (fun x : value * value => mb_pair (fst (snd (dec x))) (ind + 2) (snd (snd (dec x)))) sm)
+    change (map (fun x : value * value => mb_pair (repr (fst x) (ind + 1)) (ind + 2) (repr (snd x) (ind + 2))) sm)
       with (map (pair_text ind) sm).
-    change (map (fun x : value * value => snd (dec' x)) sm)
-      with (map (fun e : value * value => (norm (fst e), norm (snd e))) sm).
     cbn [rdepth] in Hf. destruct fuel as [|f]; [lia|].
     destruct sm as [|a sm'] eqn:Esm.
     + cbn [map fold_left]. unfold mb_string. cbn [lb_string]. change (bytes_eqb sEmptyList sEmptyList) with true.
@@ -608,13 +608,13 @@ Proof.
                    = tail_text (sep_next ind) (sep_close ind) (map (pair_text ind) (a :: sm')) t) by reflexivity.
       rewrite Hd.
       set (M := list_max (map (fun e => Nat.max (rdepth (fst e)) (rdepth (snd e))) m)) in *.
-      rewrite (items_gen (pair_text ind) (fun e => IPair (norm (fst e)) (norm (snd e)))
+      rewrite (items_gen (pair_text ind) (fun e => IPair (norm (fst e) (ind + 1)) (norm (snd e) (ind + 2)))
                  M (sep_next ind) (sep_close ind) t
                  (sep_next_ws ind) ltac:(unfold sep_next; destruct (0 <=? ind)%Z; discriminate) (sep_close_ws ind) (a :: sm')).
       * cbn [ws_other N.eqb Pos.eqb orb].
-        assert (MM : map (fun e : value * value => IPair (norm (fst e)) (norm (snd e))) (a :: sm')
+        assert (MM : map (fun e : value * value => IPair (norm (fst e) (ind + 1)) (norm (snd e) (ind + 2))) (a :: sm')
                      = map (fun p : value * value => IPair (fst p) (snd p))
-                           (map (fun e : value * value => (norm (fst e), norm (snd e))) (a :: sm')))
+                           (map (fun e : value * value => (norm (fst e) (ind + 1), norm (snd e) (ind + 2))) (a :: sm')))
           by (rewrite map_map; reflexivity).
         rewrite MM.
         rewrite build_pairs by discriminate. apply finish_ok. exact Ht.
@@ -629,7 +629,7 @@ Qed.
 
 Theorem repr_reads_back v : okv v = true ->
   forall ind ctx t fuel, (rdepth v <= fuel)%nat -> term_ok ctx t ->
-  read_val fuel ctx (repr v ind ++ t) = ROk (norm v) t.
+  read_val fuel ctx (repr v ind ++ t) = ROk (norm v ind) t.
 Proof. intros Hok. exact (rt_sized (S (vsize v)) v (le_n _) Hok). Qed.
 
 End Roundtrip.
